@@ -138,6 +138,10 @@ type cpOutcome struct {
 	// Failed: this path ran into something the fold has no model for (only with cpTolerant; otherwise the
 	// whole fold fails)
 	Failed string
+	// Bytes: for each named byte of a symbolic input that the path tested, the values it can have on this
+	// path; Constraints: comparisons of sums of several bytes the path assumed.
+	Bytes       map[string]cpByteSet
+	Constraints []cpConstraint
 }
 
 type cpEngine struct {
@@ -156,6 +160,11 @@ type cpEngine struct {
 	uid       int
 	opaque    func(*ssa.Function) bool
 	visited   map[*ssa.Function]bool
+	// bytes: per named input byte, the values still possible on this path; constraints: what was assumed
+	// about sums of several bytes (cp_bytes.go)
+	bytes       map[string]cpByteSet
+	constraints []cpConstraint
+	cur         ssa.Instruction // the instruction being executed (innermost frame)
 	// globals: the cells of package-level variables the fold knows the contents of. While a package
 	// initialiser is being folded (initMode) every module variable gets a cell; afterwards only the
 	// variables that nothing but initialisers ever write keep theirs.
@@ -180,6 +189,10 @@ func cpDeps(v cpVal) string {
 	case cpUnk:
 		return x.Deps
 	case cpLin:
+		return x.Deps
+	case cpBF:
+		return x.Deps
+	case cpAff:
 		return x.Deps
 	}
 	return ""
@@ -229,6 +242,41 @@ var cpMaxOutcomes = 96
 // the whole fold (budgets still fail it). For questions about one particular kind of outcome.
 var cpTolerant = false
 
+// cpTouch, cpPanicAt: when non-nil, the index, slice and lookup instructions a fold executed, and those at
+// which a path ended in a run-time panic, are collected here (for "no input makes this index panic").
+var cpTouch, cpPanicAt, cpUnsure map[ssa.Instruction]bool
+
+// sureIndex notes an index or slice expression whose bounds the fold cannot check exactly (an offset that
+// is not a known integer, a base whose length is not known): "no panic here" is then not the fold's to say.
+func (e *cpEngine) sureIndex(fr *cpFrame, in ssa.Instruction, base ssa.Value, idx ...ssa.Value) {
+	if cpUnsure == nil {
+		return
+	}
+	sure := true
+	switch b := e.get(fr, base).(type) {
+	case cpStrSym, cpStr, cpSlice, cpArr:
+	case cpPtr:
+		if b.C == nil {
+			sure = false
+		} else if _, isArr := b.C.V.(cpArr); !isArr {
+			sure = false
+		}
+	default:
+		sure = false
+	}
+	for _, i := range idx {
+		if i == nil {
+			continue
+		}
+		if _, isK := e.get(fr, i).(cpInt); !isK {
+			sure = false
+		}
+	}
+	if !sure {
+		cpUnsure[in] = true
+	}
+}
+
 // cpMaxForks bounds the number of undecided branches along one path.
 var cpMaxForks = 28
 
@@ -249,6 +297,7 @@ func cpFoldOpt(P *Program, fn *ssa.Function, args []cpVal, opaque func(*ssa.Func
 		d := e.pending[len(e.pending)-1]
 		e.pending = e.pending[:len(e.pending)-1]
 		e.decisions, e.taken, e.steps, e.calls, e.uid, e.decided = d, nil, 0, nil, 0, map[string]bool{}
+		e.bytes, e.constraints = nil, nil
 		out, aborted := e.runTop(fn, args)
 		if aborted != "" {
 			return nil, nil, false, aborted
@@ -266,11 +315,14 @@ func (e *cpEngine) runTop(fn *ssa.Function, args []cpVal) (out cpOutcome, aborte
 		if r := recover(); r != nil {
 			if a, ok := r.(cpAbort); ok {
 				if a.why == "panic-instr" {
-					out = cpOutcome{Panics: true, Calls: e.calls, Decided: e.decided}
+					if cpPanicAt != nil && e.cur != nil {
+						cpPanicAt[e.cur] = true
+					}
+					out = cpOutcome{Panics: true, Calls: e.calls, Decided: e.decided, Bytes: e.bytes, Constraints: e.constraints}
 					return
 				}
 				if cpTolerant && !strings.Contains(a.why, "budget") && !strings.Contains(a.why, "too many") && a.why != "call depth" && a.why != "loop bound" {
-					out = cpOutcome{Failed: a.why, Calls: e.calls, Decided: e.decided}
+					out = cpOutcome{Failed: a.why, Calls: e.calls, Decided: e.decided, Bytes: e.bytes, Constraints: e.constraints}
 					return
 				}
 				aborted = a.why
@@ -286,7 +338,7 @@ func (e *cpEngine) runTop(fn *ssa.Function, args []cpVal) (out cpOutcome, aborte
 		cp[i] = cpCopy(a, memo)
 	}
 	res := e.call(fn, cp, 0)
-	return cpOutcome{Results: res, Calls: e.calls, Decided: e.decided}, ""
+	return cpOutcome{Results: res, Calls: e.calls, Decided: e.decided, Bytes: e.bytes, Constraints: e.constraints}, ""
 }
 
 // cpCopy copies a value; cells reachable through pointers are copied once
@@ -583,6 +635,7 @@ func (e *cpEngine) callBound(fn *ssa.Function, args []cpVal, bind []cpVal, depth
 		}
 		var next *ssa.BasicBlock
 		for _, in := range b.Instrs[len(phis):] {
+			e.cur = in
 			e.steps++
 			if e.steps > e.MaxSteps {
 				e.fail("step budget")
@@ -720,6 +773,24 @@ func (e *cpEngine) resultOf(fr *cpFrame, v ssa.Value, hint string) cpVal {
 }
 
 func (e *cpEngine) eval(fr *cpFrame, v ssa.Value, depth int) cpVal {
+	if cpTouch != nil {
+		switch x := v.(type) {
+		case *ssa.Index:
+			cpTouch[x] = true
+			e.sureIndex(fr, x, x.X, x.Index)
+		case *ssa.IndexAddr:
+			cpTouch[x] = true
+			e.sureIndex(fr, x, x.X, x.Index)
+		case *ssa.Slice:
+			cpTouch[x] = true
+			e.sureIndex(fr, x, x.X, x.Low, x.High, x.Max)
+		case *ssa.Lookup:
+			if _, isMap := x.X.Type().Underlying().(*types.Map); !isMap {
+				cpTouch[x] = true
+				e.sureIndex(fr, x, x.X, x.Index)
+			}
+		}
+	}
 	switch x := v.(type) {
 	case *ssa.Alloc:
 		t := x.Type().(*types.Pointer).Elem()
@@ -787,7 +858,7 @@ func (e *cpEngine) eval(fr *cpFrame, v ssa.Value, depth int) cpVal {
 				if idx.V < 0 || idx.V >= b.Len {
 					e.fail("panic-instr")
 				}
-				return cpUnk{ID: fmt.Sprintf("%s[%d]", b.ID, b.Off+idx.V), Deps: fmt.Sprintf(",%d,", b.Off+idx.V)}
+				return cpByteIdent(fmt.Sprintf("%s[%d]", b.ID, b.Off+idx.V), b.Off+idx.V)
 			}
 			e.fail("a symbolic string indexed at an unknown position")
 		}
@@ -819,11 +890,16 @@ func (e *cpEngine) eval(fr *cpFrame, v ssa.Value, depth int) cpVal {
 		}
 		return cl
 	case *ssa.Range:
-		if _, isSym := e.get(fr, x.X).(cpStrSym); isSym {
-			e.fail("range over a symbolic string")
+		if sym, isSym := e.get(fr, x.X).(cpStrSym); isSym {
+			return cpStrIter{S: sym, Next: new(int64)}
 		}
 		return e.resultOf(fr, v, "opaque")
-	case *ssa.MakeChan, *ssa.Next, *ssa.Select, *ssa.SliceToArrayPointer, *ssa.MultiConvert:
+	case *ssa.Next:
+		if it, ok := e.get(fr, x.Iter).(cpStrIter); ok {
+			return e.strIterNext(it)
+		}
+		return e.resultOf(fr, v, "opaque")
+	case *ssa.MakeChan, *ssa.Select, *ssa.SliceToArrayPointer, *ssa.MultiConvert:
 		return e.resultOf(fr, v, "opaque")
 	case *ssa.Extract:
 		t := e.get(fr, x.Tuple)
@@ -856,6 +932,9 @@ func (e *cpEngine) eval(fr *cpFrame, v ssa.Value, depth int) cpVal {
 			if f, ok := a.(cpFloat); ok {
 				return cpFloat{-f.V}
 			}
+			if r, ok := e.byteNeg(a); ok && isWide64(x.Type()) {
+				return r
+			}
 		case token.XOR:
 			if i, ok := a.(cpInt); ok {
 				return e.wrap(cpInt{^i.V}, x.Type())
@@ -875,6 +954,9 @@ func (e *cpEngine) eval(fr *cpFrame, v ssa.Value, depth int) cpVal {
 		return e.get(fr, x.X)
 	case *ssa.Convert:
 		a := e.get(fr, x.X)
+		if r, ok := e.byteConvert(x, a); ok {
+			return r
+		}
 		switch y := a.(type) {
 		case cpInt:
 			if b, ok := x.Type().Underlying().(*types.Basic); ok {
@@ -1002,6 +1084,12 @@ func (e *cpEngine) wrap(i cpInt, t types.Type) cpVal {
 }
 
 func (e *cpEngine) binop(x *ssa.BinOp, a, b cpVal) cpVal {
+	if r, ok := e.byteBinop(x, a, b); ok {
+		return r
+	}
+	if r, ok := e.rngBinop(x, a, b); ok {
+		return r
+	}
 	cmp := func(c int) cpVal {
 		switch x.Op {
 		case token.EQL:
